@@ -469,6 +469,16 @@ impl SimSource {
     }
 }
 
+thread_local! {
+    /// when set, a source under an `Intr` schedule really reports `ErrorKind::Interrupted` (off by default: the
+    /// properties speak of short reads on the source side; C04 turns it on for its safety clauses only)
+    static SOURCE_INTERRUPTS: std::cell::Cell<bool> = const { std::cell::Cell::new(false) };
+}
+
+pub fn set_source_interrupts(on: bool) {
+    SOURCE_INTERRUPTS.with(|c| c.set(on));
+}
+
 impl Read for SimSource {
     fn read(&mut self, buf: &mut [u8]) -> io::Result<usize> {
         self.tick()?;
@@ -492,7 +502,14 @@ impl Read for SimSource {
         }
         let n = match self.sched.next(want) {
             Xfer::Move(n) => n.min(want),
-            Xfer::Interrupted => 1, // interruptions are injected on sinks only
+            Xfer::Interrupted => {
+                if SOURCE_INTERRUPTS.with(std::cell::Cell::get) {
+                    fired("source_interrupted");
+                    log_seam(b'I', buf.len() as u64, 0);
+                    return Err(io::Error::new(io::ErrorKind::Interrupted, "sim: read interrupted"));
+                }
+                1
+            }
         };
         if n < want {
             self.stats.borrow_mut().short_reads += 1;
